@@ -122,29 +122,58 @@ def do_op(chart, twin, op, other):
         return type(e).__name__
 
 
+def _derived_names(obj):
+    """Public derived attributes of the object's class (properties and cached properties)."""
+    import functools
+    out = []
+    for klass in type(obj).__mro__:
+        for name, v in vars(klass).items():
+            if not name.startswith("_") and isinstance(v, (property, functools.cached_property)) and name not in out:
+                out.append(name)
+    return out
+
+
+NEW_ATTRIBUTE = "verif_new_attribute"
+
+
 def try_assign(chart):
-    """Attempt attribute assignment on every event and track object; True iff all were rejected."""
-    rejected = True
+    """Attempt attribute assignment on every event and track object: every declared field, every public derived
+    attribute (property / cached property) and one attribute name the class does not know.  Returns the accepted
+    assignments as {"field": [...], "derived": [...], "new": [...]} of "Class.name" (all empty iff all were rejected).
+    An accepted assignment re-assigns the current value (or is undone), so the chart is left as it was."""
+    import dataclasses
+    accepted = {"field": [], "derived": [], "new": []}
     targets = list(_events(chart))
     for _, dd in chart.instrument_tracks.items():
         targets += list(dd.values())
     targets += [chart.sync_track, chart.global_events_track]      # "event and track objects" (not metadata / wrappers)
     for obj in targets:
-        import dataclasses
-        names = [f.name for f in dataclasses.fields(obj)] if dataclasses.is_dataclass(obj) else []
-        for name in names[:4] + ["tick"]:
-            if not hasattr(obj, name):
+        fields = [f.name for f in dataclasses.fields(obj)] if dataclasses.is_dataclass(obj) else []
+        plan = [("field", n) for n in fields] + [("derived", n) for n in _derived_names(obj) if n not in fields]
+        for cat, name in plan:
+            try:
+                cur = getattr(obj, name)
+            except Exception:  # noqa: BLE001
                 continue
             try:
-                setattr(obj, name, getattr(obj, name))
-                rejected = False
+                setattr(obj, name, cur)
             except (AttributeError, TypeError):
-                pass
-            try:
-                object.__getattribute__(obj, name)
-            except AttributeError:
-                pass
-    return rejected
+                continue
+            tag = f"{type(obj).__name__}.{name}"
+            if tag not in accepted[cat]:
+                accepted[cat].append(tag)
+        try:
+            setattr(obj, NEW_ATTRIBUTE, 0)
+        except (AttributeError, TypeError):
+            continue
+        try:
+            object.__delattr__(obj, NEW_ATTRIBUTE)
+        except Exception:  # noqa: BLE001
+            getattr(obj, "__dict__", {}).pop(NEW_ATTRIBUTE, None)
+        tag = f"{type(obj).__name__}.{NEW_ATTRIBUTE}"
+        if tag not in accepted["new"]:
+            accepted["new"].append(tag)
+    return accepted
 
 
 def run_sequence(sid, ops, text, other, want=None):
@@ -160,10 +189,12 @@ def run_sequence(sid, ops, text, other, want=None):
     results = []
     for k, op in enumerate(ops):
         if op[0] in ("assign-event", "assign-track"):
-            rej = try_assign(chart)
+            acc = try_assign(chart)
+            rej = not any(acc.values())
             after = observe.digest(observe.obs_chart(chart))
             recs.append({"id": f"{sid}.{k}", "props": ["C19"], "kind": "assign", "op": op, "rejected": bool(rej),
-                         "before": before, "after": after})
+                         "acc_field": bool(acc["field"]), "acc_derived": bool(acc["derived"]), "acc_new": bool(acc["new"]),
+                         "accepted": acc["field"] + acc["derived"] + acc["new"], "before": before, "after": after})
             results.append("AttributeError" if rej else "value")
             before = after
             continue
@@ -200,14 +231,14 @@ def _judge(ctx, seqs, text, origin, variant):
                 if len(ctx.extra["drift_examples"]) < 5:
                     ctx.extra["drift_examples"].append({"ops": ops, "model": expect_last, "code": results[-1]})
         for x in rs:
-            owner[x["id"]] = (sid, ops)
+            owner[x["id"]] = (sid, ops, x.get("accepted"))
         recs += rs
     if seqs:
         ctx.sample({"origin": origin, "ops": seqs[len(seqs) // 2][1], "records": len(recs)})
     for rid, p, clause in ctx.validate(recs):
-        sid, ops = owner[rid]
+        sid, ops, accepted = owner[rid]
         step = int(rid.rsplit(".", 1)[1])
-        ctx.violation(clause, {"kind": "ops", "ops": ops[:step + 1], "variant": variant, "text": text},
+        ctx.violation(clause, {"kind": "ops", "ops": ops[:step + 1], "variant": variant, "text": text, "accepted_assignments": accepted},
                       key=clause + "|" + json.dumps(ops[step]))
 
 
